@@ -181,6 +181,7 @@ fn connect_records_the_member_it_uses() {
     unsafe { MEMBER_OK = kani::any(); }
     let ctx = ContextRef(CtxInner(Props { key: any_value(), eval_ok: kani::any() }));
     let eval_ok = ctx.0 .0.eval_ok;
+    let (lb2, st2) = (lb.clone(), st.clone());
     let r = run_ready(lb.connect(st, ctx));
     unsafe {
         if N_USED > 0 {
@@ -192,6 +193,13 @@ fn connect_records_the_member_it_uses() {
         }
         kani::cover!(r.is_ok() && n == 3);
         kani::cover!(r.is_err() && N_USED == 1);
+        // round robin is counted in SELECTIONS: with two members, two consecutive connections use both of them
+        if n == 2 && N_USED == 1 {
+            let first = USED;
+            let ctx2 = ContextRef(CtxInner(Props { key: any_value(), eval_ok: true }));
+            let _ = run_ready(lb2.connect(st2, ctx2));
+            assert!(N_USED == 2 && USED != first && RECORDED == USED, "two consecutive round-robin connections went to the same member of two");
+        }
     }
 }
 fn main() {}
